@@ -29,8 +29,8 @@ type env interface {
 	Listen(addr string) (net.Listener, error)
 	Dial(addr string) (net.Conn, error)
 	Go(f func())
-	Wait()           // wait for all Go'd functions
-	Addr() string    // a free address
+	Wait()            // wait for all Go'd functions
+	Addr() string     // a free address
 	Reset(c net.Conn) // abort the connection (RST)
 	Sleep(d time.Duration)
 	Real() bool
@@ -40,9 +40,9 @@ type env interface {
 type realEnv struct{ wg sync.WaitGroup }
 
 func (e *realEnv) Listen(a string) (net.Listener, error) { return net.Listen("tcp", a) }
-func (e *realEnv) Dial(a string) (net.Conn, error)        { return net.DialTimeout("tcp", a, 2*time.Second) }
-func (e *realEnv) Go(f func())                            { e.wg.Add(1); go func() { defer e.wg.Done(); f() }() }
-func (e *realEnv) Wait()                                  { e.wg.Wait() }
+func (e *realEnv) Dial(a string) (net.Conn, error)       { return net.DialTimeout("tcp", a, 2*time.Second) }
+func (e *realEnv) Go(f func())                           { e.wg.Add(1); go func() { defer e.wg.Done(); f() }() }
+func (e *realEnv) Wait()                                 { e.wg.Wait() }
 func (e *realEnv) Addr() string {
 	l, _ := net.Listen("tcp", "127.0.0.1:0")
 	defer l.Close()
